@@ -48,6 +48,12 @@ def run(ctx):
         del g
         items = _expand(base, kinds_by_shape, ctx.seed, 1 if quick else 4)
         ctx.check_ops(gcfg, items, ['Combine', 'Invert', 'ManyOr', 'Copy', 'Evaluate', 'EditMode'])
+        ecfg = 'GEN_SubsetAlgebra_edit.cfg'
+        res, g = tlc.dump_graph(wd, 'MC_SubsetAlgebra.tla', ecfg, timeout=3000)
+        ctx.add_tlc('E1 generation ' + ecfg, res, ecfg)
+        ebase = _base([[g.state(n) for n in p] for p in g.behaviours()])
+        del g
+        items += _expand(ebase, kinds_by_shape, ctx.seed + 5, 1 if quick else 3)
         n, depth = (300, 9) if quick else (5000, 12)
         res, behs = tlc.simulate(wd, 'MC_SubsetAlgebra.tla', 'SIM_SubsetAlgebra.cfg', num=n, depth=depth, seed=ctx.seed + 1,
                                  timeout=3000)
